@@ -94,6 +94,15 @@ def der_mutants(rng, raw, limit):
             out.append(raw[:off] + raw[off:off + 1] + b"\x00" + raw[off + hl + cl:])
             # … also with the enclosing lengths left as they are but the content zero-filled to one octet
             out.append(raw[:off] + raw[off:off + 1] + b"\x01\x80" + raw[off + hl + cl:])
+    # every OID / INTEGER with a NEIGHBOURING value (last content octet replaced by 0..9 and a few others): the siblings of the
+    # OIDs a blob carries — other protection-descriptor types (…74.1.2 / .5 / .8), other algorithm arcs, other versions —
+    # are exactly the values a dispatch table or enum lookup may know and not handle
+    for (off, hl, cl, cons) in spans:
+        if raw[off] in (0x02, 0x06) and cl >= 1:
+            last = off + hl + cl - 1
+            for v in list(range(0, 10)) + [0x2D, 0x2E, 0x7F, 0x80, 0xFF]:
+                if v != raw[last]:
+                    out.append(raw[:last] + bytes([v]) + raw[last + 1:])
     rng.shuffle(spans)
     for (off, hl, cl, cons) in spans[:limit]:
         head, content, tail = raw[off:off + hl], raw[off + hl:off + hl + cl], raw[off + hl + cl:]
